@@ -9,7 +9,9 @@ UNIVERSE = {
     "thorough": dict(KeyIds="{1, 2, 3}", HashLeaves='{<<"sha256", 1>>, <<"hash160", 1>>}',
                      Afters="{100, 500000100}", Olders="{10, 4194314}",
                      MultiKs="{<<1, <<1, 2>>>>, <<2, <<1, 2>>>>, <<2, <<1, 2, 3>>>>, <<1, <<3, 4>>>>}", MaxThreshN=3,
-                     MaxNodes={"segwitv0": 5, "tap": 5, "legacy": 5, "bare": 4}),
+                     # 4 nodes in the larger universe (3 keys, 2 hashes, both lock units, 4 multisigs) is already
+                     # ~8x the quick case count per context; 5 nodes does not finish within the TLC timeouts
+                     MaxNodes={"segwitv0": 4, "tap": 4, "legacy": 4, "bare": 4}),
 }
 CTXS = ["segwitv0", "tap", "legacy", "bare"]
 
